@@ -292,10 +292,15 @@ def judge_case(case, r, classes):
             fails.append(f"{name}: point {i} = {p} lies at least 1e-9*L inside but the predicate says False ({case['pt_cls'][i]})")
         if c == "out" and b:
             fails.append(f"{name}: point {i} = {p} lies at least 1e-9*L outside but the predicate says True ({case['pt_cls'][i]})")
-    if r["single"] != r["contained"][:len(r["single"])]:
-        fails.append(f"{name}: batch answer differs from one-point-at-a-time answers: {r['contained'][:4]} vs {r['single']}")
-    if r["reversed"] != r["contained"]:
-        fails.append(f"{name}: answer depends on the order of the points in the batch")
+    # element-wise for any batch: judged where the property speaks (points at least 1e-9*L inside or
+    # outside); for points in the band the batched and the single evaluation go through different
+    # BLAS kernels and may legitimately round to different sides of the boundary
+    for i, (a, b) in enumerate(zip(r["single"], r["contained"])):
+        if a != b and classes[i] != "band":
+            fails.append(f"{name}: point {i} = {case['points'][i]} ({classes[i]}): batch answer {b} differs from the one-point-at-a-time answer {a}")
+    for i, (a, b) in enumerate(zip(r["reversed"], r["contained"])):
+        if a != b and classes[i] != "band":
+            fails.append(f"{name}: point {i} = {case['points'][i]} ({classes[i]}): the answer depends on the order of the points in the batch")
     if "dist" in r:
         for i, (b, dist, c) in enumerate(zip(r["contained"], r["dist"], classes)):
             if not (dist == dist):
@@ -518,9 +523,11 @@ def run(tier, seed, replay=None):
         items, pts = [], []
         try:
             spec = sc.to_spec(sh, None)
-            for j, (p, x) in enumerate(zip(c["points"], cl)):
-                if x != "out":
-                    continue
+            outs_j = [j for j, x in enumerate(cl) if x == "out"]
+            # at most 8 per case, the ones closest to the boundary (boundary pushes) first
+            outs_j.sort(key=lambda j: (not c["pt_cls"][j].startswith("push"), j))
+            for j in outs_j[:8]:
+                p = c["points"][j]
                 n = outward_direction(sh, p)
                 if n is None or not sc.finite(n):
                     continue
@@ -530,7 +537,7 @@ def run(tier, seed, replay=None):
                 jobs.append((ci, pts, ([("shS", narrow.sh_expr(spec))], f"[{'; '.join(items)}]")))
         except Exception as e:
             R.notes.append(dict(certificate_construction_failed=f"{type(e).__name__}: {str(e)[:200]}", case_hash=cm.canon_hash(c)))
-    cert = dict(out_class_points=hist_cls["out"], submitted=sum(len(p) for _, p, _ in jobs), accepted=0, rejected=0)
+    cert = dict(out_class_points=hist_cls["out"], rule="at most 8 per case, boundary pushes first", submitted=sum(len(p) for _, p, _ in jobs), accepted=0, rejected=0)
     try:
         outs = sc.coq_eval_blocks(PID, sc.CERT_HEADER, [e for _, _, e in jobs], tag="cert",
                                   per_file=max(2, len(jobs) // (cm.NCPU * 3) + 1), timeout=1500)
